@@ -205,6 +205,20 @@ CHECKS = {
           "stream contract. The fault position is an exhaustive finite choice (<=12 quick/16 thorough operations), the solver decides only the "
           "close_catchall/timeout arithmetic. `closed` observed by a third thread during close() is outside."),
     technique="symbolic/exhaustive execution of the Python AST with injected transport faults + z3; replay on CPython"),
+ "C02": dict(
+    category="other", design_ref="DESIGN.md section 4 (C02)",
+    text=("Buffered iteration is decided symbolically: the real helpers.buffiter and Connection._handle_buffiter with chunk and max_chunk as solver "
+          "Ints (>= 1), factor in {1,2,3} and a remote iterator of every length up to the bound must yield exactly the remote items in order. "
+          "Operation transparency is checked differentially: every sequence of <=2 (quick)/3 (thorough) operations from per-type pools (8 target "
+          "types: list, dict, set, bytearray, deque, generator, text file, a user class with operators/properties/context manager; 14-36 operations "
+          "each incl. IndexError/KeyError/TypeError/AttributeError cases; operands immutable or living on the target's side as the property requires) "
+          "is applied through a real connection pair and to a local twin under classic, public and default configuration; results, exception "
+          "classes and the final target state must agree. Forwarder completeness is checked for 90 data-model and ordinary method names."),
+    note=("Only O3 is solver-decided; O1/O2 are exhaustive enumeration / differential execution on real connections, as DESIGN.md states for "
+          "this property. Operations that go through C-level protocols a proxy cannot carry (buffer protocol) and operands that are mutable "
+          "objects of the caller's side are outside the property. A genuine defect (exception record with a failing repr tears the connection "
+          "down) was first exposed here and is recorded under C08."),
+    technique="symbolic execution of the Python AST (buffered iteration, z3 LIA) + exhaustive differential operation sequences on real connections"),
 }
 
 NOT_YET = {}
